@@ -426,6 +426,10 @@ func (e *Env) Apply(op *Op) []string {
 
 func (e *Env) applyCore(op *Op) []string {
 	switch op.Kind {
+	case "create", "load", "reload", "patch", "ftrunc", "fpatch":
+		e.desync = false // a fresh handle: it says what the file says
+	}
+	switch op.Kind {
 	case "cli":
 		return e.applyCli(op)
 	case "st":
@@ -545,6 +549,7 @@ func (e *Env) applyCore(op *Op) []string {
 		return []string{fmt.Sprintf("case %d", op.Case)}
 	case "create":
 		e.Close()
+		atPath := false // create through CreateContainerAtPath (over an existing file), then open the result
 		e.backend = op.Backend
 		if e.backend == "file" {
 			e.fileSeq++
@@ -554,6 +559,7 @@ func (e *Env) applyCore(op *Op) []string {
 				// an image is rebuilt in place: the path already holds a file (an older, longer image or
 				// unrelated bytes, nowhere zero); nothing of it may show in the new image
 				_ = os.WriteFile(e.path, bytes.Repeat([]byte{0xA5}, 200000), 0o644)
+				atPath = true
 			}
 		} else {
 			e.buf = sif.NewBuffer(dirtyCap(nil))
@@ -587,6 +593,28 @@ func (e *Env) applyCore(op *Op) []string {
 				}
 				opts = append(opts, sif.OptCreateWithDescriptors(dis...))
 			}
+		}
+		if atPath {
+			f0, cerr := sif.CreateContainerAtPath(e.path, opts...)
+			if cerr != nil {
+				_ = os.Remove(e.path)
+				return []string{"res " + errClass(cerr)}
+			}
+			op.Now = f0.CreatedAt().Unix()
+			if u, perr := uuid.Parse(f0.ID()); perr == nil {
+				op.Rnd = u[:]
+			}
+			_ = f0.UnloadContainer()
+			rw, rerr := e.rw()
+			if rerr != nil {
+				return []string{"res err:other"}
+			}
+			f1, lerr := sif.LoadContainer(rw)
+			if lerr != nil {
+				return []string{"res " + errClass(lerr)}
+			}
+			e.f = f1
+			return []string{"res ok"}
 		}
 		rw, err := e.rw()
 		if err != nil {
